@@ -54,13 +54,16 @@ Qed.
 Lemma deriv_empty : forall b, deriv Empty b = Empty.
 Proof. reflexivity. Qed.
 
+Lemma search_nullable : forall f reps r work seen,
+  nullable r = true -> nonempty_search (Datatypes.S f) reps (r :: work) seen = Some true.
+Proof. intros f reps r work seen H. cbn [nonempty_search]. rewrite H. reflexivity. Qed.
+
 (* a nullable expression is never dropped *)
 Lemma nullable_nonempty : forall r, nullable r = true -> nonempty r = true.
 Proof.
   intros r Hn. unfold nonempty, nonempty_fuel.
   destruct (has_and_not r) eqn:E.
-  - change default_fuel with (Datatypes.S (pred default_fuel)).
-    cbn [nonempty_search]. rewrite Hn. reflexivity.
+  - unfold default_fuel. rewrite search_nullable by exact Hn. reflexivity.
   - apply (proj2 (nonempty_simple_correct r E)). exists []. now apply nullable_correct.
 Qed.
 
@@ -80,3 +83,274 @@ Definition cex_S : regex := Not (Star any_byte).
 
 Lemma step_partials_ok_original_false :
   ~ (forall S seg ps b,
+       partials_ok S seg ps -> partials_ok S (seg ++ [b]) (step_partials S ps b)).
+Proof.
+  intros H.
+  assert (H0 : partials_ok cex_S [0] []).
+  { intros r n. split; [intros []|].
+    intros (Hle & Hpos & Hr & _ & Hne). cbn [length] in Hle.
+    assert (n = 1%nat) as -> by lia. cbn in Hr. subst r.
+    vm_compute in Hne. discriminate. }
+  specialize (H cex_S [0] [] 256 H0).
+  destruct (H (Not Empty) 2%nat) as [_ Hback].
+  assert (Hin : In (Not Empty, 2%nat) (step_partials cex_S [] 256)).
+  { apply Hback. vm_compute. repeat split; constructor. constructor. }
+  vm_compute in Hin. destruct Hin as [Hin|[]]. discriminate.
+Qed.
+
+(* ------------------------------------------------------------------ *)
+(* completeness of the emptiness search: `Some false` is always right   *)
+(* (RegexProofs only has the soundness of `Some true`)                  *)
+(* ------------------------------------------------------------------ *)
+
+Section AllSets.
+  Variable P : bset -> Prop.
+  Hypothesis P_lor : forall s t, P s -> P t -> P (N.lor s t).
+  Hypothesis P_land : forall s t, P s -> P t -> P (N.land s t).
+  Hypothesis P_all : P bset_all.
+
+  (* every byte set occurring in r satisfies P *)
+  Fixpoint allsets (r : regex) : Prop :=
+    match r with
+    | Bytes t => P t
+    | Cat a b | Alt a b | And a b => allsets a /\ allsets b
+    | Not a => allsets a
+    | Rep a _ _ => allsets a
+    | _ => True
+    end.
+
+  Lemma allsets_occ : forall r, allsets r <-> (forall s, occ s r -> P s).
+  Proof.
+    induction r as [| |t|a IHa b IHb|a IHa b IHb|a IHa b IHb|a IHa|a IHa lo hi];
+      cbn [allsets occ]; try (rewrite IHa, IHb; split;
+        [intros [H1 H2] s [H|H]; auto | intros H; split; intros s Hs; apply H; auto]);
+      try assumption.
+    - split; [intros _ s [] | trivial].
+    - split; [intros _ s [] | trivial].
+    - split; [intros H s ->; exact H | intros H; now apply H].
+  Qed.
+
+  Lemma allsets_mk_bytes : forall s, P s -> allsets (mk_bytes s).
+  Proof.
+    intros s H. unfold mk_bytes. destruct (N.land s bset_all =? 0); cbn [allsets]; auto.
+  Qed.
+
+  Lemma allsets_mk_cat : forall a b, allsets a -> allsets b -> allsets (mk_cat a b).
+  Proof.
+    intros a b Ha Hb. unfold mk_cat.
+    destruct (is_empty_syn a || is_empty_syn b); [exact I|].
+    destruct (is_eps_syn a); [assumption|].
+    destruct (is_eps_syn b); [assumption|].
+    destruct a; cbn [allsets] in *; tauto.
+  Qed.
+
+  Lemma allsets_alt_insert_all : forall a b, allsets a -> allsets b -> allsets (alt_insert_all a b).
+  Proof.
+    induction a as [| |t|a1 IH1 a2 IH2|a1 IH1 a2 IH2|a1 IH1 a2 IH2|a1 IH1|a1 IH1 lo hi];
+      intros b Ha Hb; cbn [alt_insert_all];
+      try (match goal with |- context [alt_mem ?x ?y] => destruct (alt_mem x y) end;
+           cbn [allsets] in *; tauto).
+    cbn [allsets] in Ha. destruct Ha as [Ha1 Ha2].
+    pose proof (IH2 b Ha2 Hb) as H.
+    destruct (alt_mem a1 (alt_insert_all a2 b)); [assumption|]. cbn [allsets]. tauto.
+  Qed.
+
+  Lemma allsets_mk_alt : forall a b, allsets a -> allsets b -> allsets (mk_alt a b).
+  Proof.
+    intros a b Ha Hb. unfold mk_alt.
+    destruct (is_empty_syn a); [assumption|].
+    destruct (is_empty_syn b); [assumption|].
+    destruct (is_all_syn a || is_all_syn b); [exact I|].
+    destruct a; try (apply allsets_alt_insert_all; assumption).
+    destruct b; try (apply allsets_alt_insert_all; assumption).
+    cbn [allsets] in *. now apply P_lor.
+  Qed.
+
+  Lemma allsets_mk_and : forall a b, allsets a -> allsets b -> allsets (mk_and a b).
+  Proof.
+    intros a b Ha Hb. unfold mk_and.
+    destruct (is_empty_syn a || is_empty_syn b); [exact I|].
+    destruct (is_all_syn a); [assumption|].
+    destruct (is_all_syn b); [assumption|].
+    destruct (regex_eqb a b); [assumption|].
+    destruct a; destruct b;
+      try (cbn [allsets] in *; tauto);
+      try (match goal with |- context [if ?c then _ else _] => destruct c end; exact I).
+    cbn [allsets] in *. apply allsets_mk_bytes. now apply P_land.
+  Qed.
+
+  Lemma allsets_mk_rep : forall a lo hi, allsets a -> allsets (mk_rep a lo hi).
+  Proof.
+    intros a lo hi Ha. unfold mk_rep. destruct hi as [h|].
+    - destruct (h <? lo); [exact I|]. destruct (h =? 0); [exact I|].
+      destruct (is_empty_syn a); [destruct (lo =? 0); exact I|].
+      destruct (is_eps_syn a); [exact I|].
+      destruct ((lo =? 1) && (h =? 1)); assumption.
+    - destruct (is_empty_syn a); [destruct (lo =? 0); exact I|].
+      destruct (is_eps_syn a); [exact I|]. assumption.
+  Qed.
+
+  Lemma allsets_deriv : forall r c, allsets r -> allsets (deriv r c).
+  Proof.
+    induction r as [| |t|a IHa b IHb|a IHa b IHb|a IHa b IHb|a IHa|a IHa lo hi];
+      intros c H; cbn [deriv]; cbn [allsets] in H.
+    - exact I.
+    - exact I.
+    - destruct (bset_mem t c && (c <? 256)); exact I.
+    - destruct H as [H1 H2].
+      assert (Hd : allsets (mk_cat (deriv a c) b)) by (apply allsets_mk_cat; auto).
+      destruct (nullable a); [apply allsets_mk_alt; auto | assumption].
+    - destruct H as [H1 H2]. apply allsets_mk_alt; auto.
+    - destruct H as [H1 H2]. apply allsets_mk_and; auto.
+    - unfold mk_not. cbn [allsets]. auto.
+    - assert (Hd : allsets (mk_cat (deriv a c) (mk_rep a (lo - 1) (pred_opt hi)))).
+      { apply allsets_mk_cat; [auto | now apply allsets_mk_rep]. }
+      destruct hi as [[|p]|]; [exact I | assumption | assumption].
+  Qed.
+End AllSets.
+
+(* s does not separate bytes with the same signature *)
+Definition sig_resp (sets : list bset) (s : bset) : Prop :=
+  forall c c', c < 256 -> c' < 256 -> signature sets c = signature sets c' ->
+               bset_mem s c = bset_mem s c'.
+
+Lemma sig_resp_lor : forall sets s t, sig_resp sets s -> sig_resp sets t -> sig_resp sets (N.lor s t).
+Proof.
+  unfold sig_resp, bset_mem. intros sets s t Hs Ht c c' Hc Hc' Hsig. rewrite !N.lor_spec.
+  now rewrite (Hs c c' Hc Hc' Hsig), (Ht c c' Hc Hc' Hsig).
+Qed.
+Lemma sig_resp_land : forall sets s t, sig_resp sets s -> sig_resp sets t -> sig_resp sets (N.land s t).
+Proof.
+  unfold sig_resp, bset_mem. intros sets s t Hs Ht c c' Hc Hc' Hsig. rewrite !N.land_spec.
+  now rewrite (Hs c c' Hc Hc' Hsig), (Ht c c' Hc Hc' Hsig).
+Qed.
+Lemma sig_resp_all : forall sets, sig_resp sets bset_all.
+Proof.
+  intros sets c c' Hc Hc' _. unfold bset_mem, bset_all.
+  now rewrite !N.ones_spec_low by assumption.
+Qed.
+
+Definition sig_ok (sets : list bset) : regex -> Prop := allsets (sig_resp sets).
+
+Lemma sig_ok_deriv : forall sets x c, sig_ok sets x -> sig_ok sets (deriv x c).
+Proof.
+  intros sets x c. apply allsets_deriv.
+  - apply sig_resp_lor. - apply sig_resp_land. - apply sig_resp_all.
+Qed.
+
+Lemma sig_ok_init : forall r, sig_ok (byte_sets r []) r.
+Proof.
+  intros r. apply allsets_occ. intros s Hs c c' _ _ Hsig.
+  apply (signature_mem (byte_sets r [])); [assumption | now apply byte_sets_occ].
+Qed.
+
+Lemma sig_ok_deriv_eq : forall sets x c c',
+  sig_ok sets x -> c < 256 -> c' < 256 -> signature sets c = signature sets c' ->
+  deriv x c = deriv x c'.
+Proof.
+  intros sets x c c' Hx Hc Hc' Hsig. apply deriv_occ; try assumption.
+  intros s Hs. exact (proj1 (allsets_occ _ x) Hx s Hs c c' Hc Hc' Hsig).
+Qed.
+
+Section Search.
+  Variable reps : list byte.
+  Variable Q : regex -> Prop.
+  Hypothesis Q_deriv : forall x c, Q x -> Q (deriv x c).
+
+  Definition closed_in (seen work : list regex) (x : regex) : Prop :=
+    nullable x = false /\ Q x /\
+    forall c, In c reps ->
+      is_empty_syn (deriv x c) = true \/ In (deriv x c) seen \/ In (deriv x c) work.
+
+  Lemma search_false_closed : forall fuel work seen,
+    nonempty_search fuel reps work seen = Some false ->
+    (forall x, In x seen -> closed_in seen work x) ->
+    (forall x, In x work -> Q x) ->
+    exists seen', (forall x, In x seen -> In x seen') /\ (forall x, In x work -> In x seen') /\
+                  (forall x, In x seen' -> closed_in seen' [] x).
+  Proof.
+    induction fuel as [|f IH]; intros work seen H Hinv HQ; cbn [nonempty_search] in H;
+      [discriminate|].
+    destruct work as [|r work'].
+    - exists seen. split; [auto|]. split; [intros x []|]. exact Hinv.
+    - destruct (nullable r) eqn:En; [discriminate|].
+      destruct (existsb (regex_eqb r) seen) eqn:Es.
+      + apply existsb_exists in Es as (y & Hy & Heq). apply regex_eqb_eq in Heq. subst y.
+        destruct (IH work' seen H) as (seen' & H1 & H2 & H3).
+        * intros x Hx. destruct (Hinv x Hx) as (Hn & Hq & Hc). split; [assumption|].
+          split; [assumption|]. intros c Hcin.
+          destruct (Hc c Hcin) as [He|[Hs|[<-|Hw]]]; auto.
+        * intros x Hx. apply HQ. now right.
+        * exists seen'. split; [assumption|]. split; [|assumption].
+          intros x [<-|Hx]; auto.
+      + match type of H with nonempty_search f reps (?nx ++ work') _ = _ => set (next := nx) in * end.
+        assert (Hnext : forall d, In d next <->
+                          exists c, In c reps /\ d = deriv r c /\ is_empty_syn d = false).
+        { intros d. unfold next. rewrite filter_In, in_map_iff, negb_true_iff. split.
+          - intros [(c & <- & Hc) He]. exists c. auto.
+          - intros (c & Hc & -> & He). split; [now exists c | assumption]. }
+        destruct (IH (next ++ work') (r :: seen) H) as (seen' & H1 & H2 & H3).
+        * intros x [<-|Hx].
+          -- split; [assumption|]. split; [apply HQ; now left|]. intros c Hcin.
+             destruct (is_empty_syn (deriv r c)) eqn:He; [now left|].
+             right. right. apply in_or_app. left. apply Hnext. exists c. auto.
+          -- destruct (Hinv x Hx) as (Hn & Hq & Hc). split; [assumption|].
+             split; [assumption|]. intros c Hcin.
+             destruct (Hc c Hcin) as [He|[Hs|[<-|Hw]]].
+             ++ now left.
+             ++ right. left. now right.
+             ++ right. left. now left.
+             ++ right. right. apply in_or_app. now right.
+        * intros x Hx. apply in_app_or in Hx as [Hx|Hx].
+          -- apply Hnext in Hx as (c & _ & -> & _). apply Q_deriv. apply HQ. now left.
+          -- apply HQ. now right.
+        * exists seen'. split; [intros x Hx; apply H1; now right|]. split; [|assumption].
+          intros x [<-|Hx]; [apply H1; now left | apply H2, in_or_app; now right].
+  Qed.
+
+  Hypothesis reps_cover : forall x c, Q x -> c < 256 -> exists c', In c' reps /\ deriv x c' = deriv x c.
+
+  Lemma closed_no_word : forall seen',
+    (forall x, In x seen' -> closed_in seen' [] x) ->
+    forall w, bytes_ok w -> forall x, In x seen' -> ~ re_lang x w.
+  Proof.
+    intros seen' Hcl. induction w as [|c w IH]; intros Hok x Hx Hl.
+    - destruct (Hcl x Hx) as (Hn & _ & _). apply nullable_correct in Hl. congruence.
+    - inversion Hok as [|c0 w0 Hc Hw]; subst.
+      destruct (Hcl x Hx) as (_ & Hq & Hd).
+      destruct (reps_cover x c Hq Hc) as (c' & Hin & Heq).
+      apply (deriv_correct x c w Hc) in Hl. rewrite <- Heq in Hl.
+      destruct (Hd c' Hin) as [He|[Hs|[]]].
+      + apply is_empty_syn_true in He. rewrite He in Hl. exact Hl.
+      + exact (IH Hw _ Hs Hl).
+  Qed.
+End Search.
+
+(* a negative answer of the search is right for real byte strings *)
+Theorem nonempty_search_false : forall fuel r,
+  nonempty_search fuel (representatives (byte_sets r [])) [r] [] = Some false ->
+  forall w, bytes_ok w -> ~ re_lang r w.
+Proof.
+  intros fuel r H w Hok.
+  set (sets := byte_sets r []) in *.
+  destruct (search_false_closed (representatives sets) (sig_ok sets) (sig_ok_deriv sets)
+              fuel [r] [] H) as (seen' & _ & Hin & Hcl).
+  - intros x [].
+  - intros x [<-|[]]. apply sig_ok_init.
+  - apply (closed_no_word (representatives sets) (sig_ok sets)) with (seen' := seen');
+      [|assumption|assumption|apply Hin; now left].
+    intros x c Hq Hc. destruct (representatives_cover sets c Hc) as (c' & Hc'in & Hc' & Hsig).
+    exists c'. split; [assumption|]. now apply (sig_ok_deriv_eq sets).
+Qed.
+
+(* `nonempty` never drops an expression that matches some real byte string *)
+Theorem nonempty_complete : forall r w, bytes_ok w -> re_lang r w -> nonempty r = true.
+Proof.
+  intros r w Hok Hl. unfold nonempty.
+  destruct (nonempty_fuel default_fuel r) as [[|]|] eqn:E; try reflexivity.
+  exfalso. unfold nonempty_fuel in E. destruct (has_and_not r) eqn:Ea.
+  - exact (nonempty_search_false _ _ E w Hok Hl).
+  - injection E as E.
+    assert (Ht : nonempty_simple r = true) by (apply nonempty_simple_correct; [assumption | now exists w]).
+    congruence.
+Qed.
